@@ -96,6 +96,11 @@ func ZZFault() {
 	wire.KeyHook = keyHook("key.", nk)
 	defer func() { wire.KeyHook = nil }()
 	kinds := []int{wire.KSet, wire.KAdd, wire.KReplace, wire.KAppend, wire.KPrepend, wire.KDelete, wire.KTouch, wire.KGat, wire.KGet, wire.KGetQNoop}
+	followup := rt.Param("followup", 0) == 1
+	if followup {
+		// multi-key reads followed by another read on the same client connection
+		kinds = []int{wire.KGetQGet, wire.KGetQ2Noop, wire.KSet}
+	}
 	var kind int
 	if k := rt.Param("kind", -1); k >= 0 {
 		kind = k
@@ -104,6 +109,18 @@ func ZZFault() {
 	}
 	it := wire.BinIntent("a.", kind, 1, 1)
 	ki := model.KeyIndex(it.Keys[0])
+	stream := it.Bytes
+	var fu *wire.Intent
+	const fuOpaque = 0xB0B0B0B0
+	if followup {
+		fu = wire.BinIntent("b.", wire.KGet, 1, 0)
+		rt.Assume(fu.Opaques[0] == fuOpaque)
+		for _, o := range it.Opaques {
+			rt.Assume(o != fuOpaque)
+		}
+		rt.Assume(rt.Not(rt.And(it.NoopEnd, it.NoopOpaque == fuOpaque)))
+		stream = append(append([]byte(nil), it.Bytes...), fu.Bytes...)
+	}
 
 	// the fault
 	fmc := l1
@@ -121,11 +138,15 @@ func ZZFault() {
 		case model.FaultStatusReply:
 			fmc.FaultStatus = faultStatuses[rt.Choice("fault.status", len(faultStatuses))]
 		case model.FaultCutReply:
-			fmc.CutAt = 1 + rt.Choice("fault.cut", 30)
+			if followup {
+				fmc.CutAt = []int{1, 24, 26}[rt.Choice("fault.cut", 3)]
+			} else {
+				fmc.CutAt = 1 + rt.Choice("fault.cut", 30)
+			}
 		}
 	}
 
-	cl := &wire.Client{In: it.Bytes, EOF: true}
+	cl := &wire.Client{In: stream, EOF: true}
 	rd, wr := bufio.NewReader(cl), bufio.NewWriter(cl)
 	h1 := std.NewHandler(l1)
 	var h2 handlers.Handler
@@ -167,6 +188,37 @@ func ZZFault() {
 	fs, ok := wire.DecodeBinary(cl.Out)
 	rt.Assert("c10-client-sees-only-complete-frames", ok)
 
+	if followup && ok {
+		// the follow-up get on the same connection: unanswered (connection given up), a
+		// not-found / error frame, or the value the key holds before or after the first request
+		rt.Reach("followup-checked")
+		kf := model.KeyIndex(fu.Keys[0])
+		oldF := w.ref.E[kf]
+		nwF := w.ref.Clone("fu")
+		if it.Type == common.RequestSet {
+			nwF.Set(ki, it.Data, it.Flags, it.TTL, w.now)
+		}
+		newF := nwF.E[kf]
+		n := 0
+		for _, f := range fs {
+			if !rt.FixBool(f.Opaque == fuOpaque) {
+				continue
+			}
+			n++
+			if f.Status != 0 {
+				continue
+			}
+			isE := func(e model.Entry) bool {
+				if len(f.Extras) != 4 || len(f.Body) != len(e.Data) {
+					return false
+				}
+				return rt.And(e.Present, rt.And(rt.BytesEq(f.Body, e.Data), be32of(f.Extras) == e.Flags))
+			}
+			rt.Assert("c10-later-read-on-the-connection-gets-its-own-keys-value", rt.Or(isE(oldF), isE(newF)))
+		}
+		rt.Assert("c10-at-most-one-reply-to-the-later-read", n <= 1)
+		return
+	}
 	// what the client was told
 	ack := false // success reply to a write / delete / touch
 	if ok {
